@@ -1,6 +1,7 @@
 package main
 
 import (
+	"k8s.io/apimachinery/pkg/watch"
 	"context"
 	"sync/atomic"
 	"errors"
@@ -49,6 +50,7 @@ var watchModes = []string{"healthy", "never-connects", "connect-hangs", "closes"
 func runRelist(c *Ctx, r *relistRun) {
 	r.deadlock = sched.Bubble(c.T, func() {
 		srv := fakeapi.New()
+		srv.SnapshotAtStart = r.seed%3 == 0 // a list answers with the state of the moment it was asked (the watch may overtake it)
 		srv.ShuffleLists = r.seed%4 == 1 // the items of each list in another order
 		srv.StaleDuplicates = r.seed%4 == 3 // lists that name a key twice, the older version first
 		srv.ListLatency = func(int) time.Duration { return r.latency }
@@ -134,6 +136,7 @@ func runRelist(c *Ctx, r *relistRun) {
 			r.checks = append(r.checks, enc.L(enc.I(6), ft, EncObjs(objs), enc.Ints(got)))
 		}
 		lastChecked := 0
+		lastRepaired := 0
 		for pi, phase := range r.phases {
 			for _, s := range phase {
 				switch s.Kind {
@@ -168,6 +171,44 @@ func runRelist(c *Ctx, r *relistRun) {
 				}
 				if r.mode == "closes" {
 					srv.CloseStreamsAfter(2)
+				}
+				// whatever the watch does: once a list has been applied, nothing that
+				// was already gone (deleted or superseded) at that list's snapshot is
+				// still cached — a list repairs what the watch lost, also a list that
+				// the watch has overtaken while it was in flight.  (Not where the server
+				// replays old history on the watch: then dead objects legitimately return
+				// until the next list.)
+				if !watchOff && r.mode != "replays" && r.mode != "duplicates" && r.mode != "overflow" {
+					ct.pert.Barrier()
+					ls, _ := srv.Calls()
+					for i := len(ls) - 1; i >= 0; i-- {
+						if !ls[i].End.IsZero() && ls[i].Kind == fakeapi.ListOK {
+							if ls[i].N > lastRepaired {
+								lastRepaired = ls[i].N
+								diedAt := map[int]int{}
+								cur := map[[2]int]int{}
+								for _, e := range srv.Log() {
+									k := [2]int{e.Obj.NS, e.Obj.NM}
+									if old, ok := cur[k]; ok {
+										diedAt[old] = e.Version
+									}
+									if e.Type == watch.Deleted {
+										delete(cur, k)
+										diedAt[e.Obj.ID] = e.Version
+									} else {
+										cur[k] = e.Obj.ID
+									}
+								}
+								got, _ := cacheIDs(ct.c.Cache())
+								for _, id := range got {
+									if d, dead := diedAt[id]; dead && d <= ls[i].Version {
+										r.problems = append(r.problems, fmt.Sprintf("after list %d (snapshot at version %d, watch %s) the cache still holds object %d, which was gone at version %d: the list did not repair it", ls[i].N, ls[i].Version, r.mode, id, d))
+									}
+								}
+							}
+							break
+						}
+					}
 				}
 				// with the watch out of action the cache can only change at a
 				// relist: right after each completed list it must equal that list
@@ -427,6 +468,75 @@ func runC03(c *Ctx) {
 			c.Violation("", p+" ["+what+"]", replay)
 		}
 		c.DistinctCase(fmt.Sprint("flood", i))
+	}
+	// a list that the watch overtakes while it is in flight still repairs what
+	// the watch had lost before it: the DELETED frame of x is lost; the next list
+	// is asked (its answer will be the state of that moment) and, while it is
+	// in flight, the watch reports a newer change; after the list has been
+	// applied x is gone and the newer change is there
+	for i := 0; i < 3; i++ {
+		var problems []string
+		what := "a lost DELETED frame, then a list overtaken by a newer watch event while in flight"
+		c.Now(what)
+		dl := sched.Bubble(c.T, func() {
+			srv := fakeapi.New()
+			srv.SnapshotAtStart = true
+			srv.Set(1, 1, labSets[1], 1)
+			x := srv.Set(1, 2, labSets[1], 1)
+			ct := newCtlWith(srv, c.Seed+int64(i), i, 2*time.Second, nil)
+			defer func() {
+				ct.pert.SetLevel(0)
+				ct.c.Close()
+				sched.Settle()
+			}()
+			ct.pert.Barrier()
+			if !isClosed(ct.c.Ready()) {
+				problems = append(problems, "not ready")
+				return
+			}
+			srv.ListLatency = func(int) time.Duration { return time.Second }
+			srv.DropNext(1)
+			srv.Delete(1, 2)
+			ct.pert.Barrier()
+			if got, _ := cacheIDs(ct.c.Cache()); !containsInt(got, x.ID) {
+				problems = append(problems, "scenario premise: the DELETED frame was not lost")
+				return
+			}
+			// wait for the next list to be asked
+			for k := 0; k < 200; k++ {
+				ls, _ := srv.Calls()
+				if len(ls) >= 2 && ls[len(ls)-1].End.IsZero() && len(ls) > 1 {
+					break
+				}
+				time.Sleep(25 * time.Millisecond)
+			}
+			ls, _ := srv.Calls()
+			if len(ls) < 2 || !ls[len(ls)-1].End.IsZero() {
+				problems = append(problems, "scenario premise: no list in flight")
+				return
+			}
+			nb := srv.Set(2, 1, labSets[2], 1) // the watch overtakes the list
+			time.Sleep(1500 * time.Millisecond)
+			ct.pert.Barrier()
+			got, _ := cacheIDs(ct.c.Cache())
+			if containsInt(got, x.ID) {
+				problems = append(problems, fmt.Sprintf("after the list was applied the cache %v still holds object %d, deleted before the list was asked (its DELETED frame had been lost): the list did not repair it", got, x.ID))
+			}
+			if !containsInt(got, nb.ID) {
+				problems = append(problems, fmt.Sprintf("after the list was applied the cache %v lacks object %d, reported on the watch while the list was in flight", got, nb.ID))
+			}
+		})
+		runs++
+		c.Rep.Evaluations++
+		replay := map[string]interface{}{"scenario": what, "variant": i}
+		if dl != "" {
+			replay["deadlock"] = dl
+			c.Violation("", "hang (bubble deadlock): "+what, replay)
+		}
+		for _, p := range problems {
+			c.Violation("", p+" ["+what+"]", replay)
+		}
+		c.DistinctCase(fmt.Sprint("overtaken-list", i))
 	}
 	// two builders configured side by side before either controller is created:
 	// each controller lists and watches ITS server at ITS refresh period
@@ -922,4 +1032,13 @@ func staleBufferRun(c *Ctx, seed int64, variant int) (problems []string, deadloc
 		check = enc.L(enc.I(6), enc.L(enc.I(0)), EncObjs(srv.ObjectsAt(ls[1].Version)), enc.Ints(got))
 	})
 	return
+}
+
+func containsInt(l []int, x int) bool {
+	for _, y := range l {
+		if y == x {
+			return true
+		}
+	}
+	return false
 }
